@@ -72,7 +72,7 @@ def check(run, replay):
         "termination of the match loop is not proved: theorems read `if the loop answers within its fuel ...`; fuel exhaustion is a distinct result, counted, never compared",
         "file system: stat/opendir/readdir are represented by a tree value whose children lists stand for the readdir order; no symlinks, no unreadable directories",
     ]
-    run.assumptions += ["g++ compiles /repo faithfully", "strings contain no NUL beyond what cstr models; windows syntax (case folding, backslash, drive/UNC roots) is not modelled"]
+    run.assumptions += ["g++ compiles /repo faithfully", "strings contain no NUL beyond what cstr models; windows syntax is modelled as compiled on this (non-Windows) build: Path::isAbsolute is the unix one; ASCII only (std::tolower in the C locale)"]
     run.extra["rule"] = ("pm: patterns from tokens {a,b,ab,.,..,/,a.c,*,**,?,?*,*?,***,*.c,...} (0-6 tokens, 3% arbitrary byte), half of the paths "
                          "instantiated from the pattern (+ prefix/suffix components), 9 base paths, 30% directory mode; thorough adds all patterns "
                          "over {a,b,.,/,*,?} len<=4 x all paths over {a,b,.,/} len<=4 and patterns len<=5 x paths len<=3; non-trivial = distinct case whose pattern has a wildcard or "
@@ -213,6 +213,18 @@ def check(run, replay):
                            "count_in_this_run": len(lst),
                            "how": "echo '%s' | build/harness/vh_c31 pm ; end to end: cppcheck -i<pattern> <dir>"
                                   % vlib.enc_case(c)})
+
+    # ---- stream 2w: Syntax::windows (tie only: iterator and matcher)
+    W = [b"a", b"B", b".", b"/", b"\\", b":", b"c"]
+    cs = [G.gen_witer_case(rng) for _ in range(3000 if quick else 100000)] + [[a, b"", b"w"] for a in G.exhaustive_strings(W, 4 if quick else 6)]
+    cs = [list(c) for c in dict.fromkeys(tuple(c) for c in cs)]
+    diffs = vlib.correspond(run, "iterraw(windows)", model, [vh, "iterraw"], cs, tag="iterraw", nontrivial=lambda c, m, i: (c[0], c[1]),
+                            bucket=lambda c, m, i: "unchanged" if m and m[0] == G_join(c) else "canonicalised")
+    tie_broken("iterraw", diffs, ["a", "b", "syntax"])
+    cs = [G.gen_wpm_case(rng) for _ in range(8000 if quick else 200000)]
+    cs = [list(c) for c in dict.fromkeys(tuple(c) for c in cs)]
+    diffs = vlib.correspond(run, "pm(windows)", model, [vh, "pm"], cs, tag="pm", nontrivial=pm_nt, bucket=pm_bucket)
+    tie_broken("pm", diffs, ["pattern", "path", "base", "mode", "syntax"])
 
     # ---- stream 3: Path::simplifyPath / acceptFile / identify (tie)
     n = 4000 if quick else 100000
